@@ -1542,6 +1542,28 @@ func (e *Entry) dup() *Entry {
 		ne.Extra[k] = v
 	}
 
+	// What a deviation or an augment may later change in place must not be
+	// shared with the original: the list attributes, the default values
+	// and the input and output of an rpc or action.
+	if e.ListAttr != nil {
+		la := *e.ListAttr
+		ne.ListAttr = &la
+	}
+	if e.Default != nil {
+		ne.Default = append([]string{}, e.Default...)
+	}
+	if e.RPC != nil {
+		ne.RPC = &RPCEntry{}
+		if e.RPC.Input != nil {
+			ne.RPC.Input = e.RPC.Input.dup()
+			ne.RPC.Input.Parent = &ne
+		}
+		if e.RPC.Output != nil {
+			ne.RPC.Output = e.RPC.Output.dup()
+			ne.RPC.Output.Parent = &ne
+		}
+	}
+
 	return &ne
 }
 
